@@ -115,8 +115,10 @@ def from_edge(edge: EdgeTemplate, return_dict: dict, base: str = 'EdgeTemplate')
 def add_to_dict(template, template_dict: dict, full_dict: dict):
 
     temp_key = template.name
-    existing_labels = {key: 0 for key in full_dict.keys()}
-    if temp_key in full_dict and full_dict[temp_key] != template_dict:
-        temp_key, _ = get_unique_label(temp_key, existing_labels)
+    # a different template of the same name gets the first label `<name>_num<i>` that is not taken by yet another one
+    i = 0
+    while temp_key in full_dict and full_dict[temp_key] != template_dict:
+        i += 1
+        temp_key = f"{template.name}_num{i}"
     full_dict[temp_key] = template_dict
     return temp_key
